@@ -13,6 +13,7 @@
 
 mod fam_buffers;
 mod fam_cycles;
+mod fam_driver;
 mod fam_options;
 mod fam_preproc;
 mod fam_wire;
@@ -80,6 +81,7 @@ pub fn make_family(name: &str) -> Option<Box<dyn Family>> {
         "buffers" => Some(Box::new(fam_buffers::Buffers::default())),
         "preproc" => Some(Box::new(fam_preproc::Preproc::default())),
         "cycles" => Some(Box::new(fam_cycles::Cycles::default())),
+        "driver" => Some(Box::new(fam_driver::Driver::default())),
         "wire" => Some(Box::new(fam_wire::Wire::default())),
         _ => None,
     }
